@@ -308,6 +308,12 @@ class FrozenSourmashSignature(SourmashSignature):
     def add_protein(self, sequence):
         raise ValueError("cannot add protein sequence to FrozenSourmashSignature")
 
+    def __setstate__(self, tup):
+        # SourmashSignature.__setstate__ frees the native object BEFORE it goes through the
+        # (refusing) setters: called on a frozen signature it destroyed the object and then raised.
+        # (pickle never calls this: __reduce__ names SourmashSignature; to_mutable() below calls it on `mut`.)
+        raise ValueError("cannot set state on FrozenSourmashSignature")
+
     def __copy__(self):
         return self
 
